@@ -1,5 +1,5 @@
 /-
-  Property C13 — the user hash ZA and the id-/message-level entry points.
+  Property C13 — the user hash ZA and the id-level and message-level entry points.
   (Property theorems only; lemmas live in SMGo/Proofs/SM2ZA.lean.)
 
   "The user hash equals SM3(ENTL || id || a || b || Gx || Gy || xA || yA) with ENTL the 16-bit bit
@@ -183,10 +183,13 @@ example :
   rw [ctx_za, spec_vector_za]
 
 /-- the empty id is accepted (ENTL = 0), 8191 bytes are accepted, 8192 refused -/
-example : (Spec.SM2.za [] [] []).isSome = true := by simp [za_formula]
-example : (Spec.SM2.za (List.replicate 8191 0) [] []).isSome = true := by simp [za_formula]
-example : Spec.SM2.za (List.replicate 8192 0) [] [] = none := by simp [za_formula]
-example : za ctx (List.replicate 8192 0) [1] [2] = .err := (za_refuses_iff ctx _ _ _).mpr (by simp)
+example : (Spec.SM2.za [] [] []).isSome = true := by
+  rw [za_formula, if_neg (by simp)]; rfl
+example : (Spec.SM2.za (List.replicate 8191 0) [] []).isSome = true := by
+  rw [za_formula, if_neg (by rw [List.length_replicate]; omega)]; rfl
+example : Spec.SM2.za (List.replicate 8192 0) [] [] = none := by
+  rw [za_formula, if_pos (by rw [List.length_replicate]; omega)]
+example : za ctx (List.replicate 8192 0) [1] [2] = .err := (za_refuses_iff ctx _ _ _).mpr (by rw [List.length_replicate]; omega)
 
 /-- ENTL of a 16-byte id is 0x0080 -/
 example : Bytes.ofNatBE 2 (16 * 8) = [0x00, 0x80] := by decide
